@@ -107,17 +107,7 @@ func c31RunBehaviour(raw []byte) ([]map[string]any, string) {
 		return s.Events(), "infeasible: start: " + err.Error()
 	}
 
-	outcome := "ok"
-	for i, st := range b.Steps {
-		s.Log(map[string]any{"ev": "at", "t": st.T, "p": st.P})
-		if _, err := s.Step(st.T, st.P); err != nil {
-			outcome = gate.StepErr(i, st, err)
-			break
-		}
-		if outcome = gate.CheckExp(i, st, c31State(u)); outcome != "ok" {
-			break
-		}
-	}
+	outcome := gate.RunSteps(s, b.Steps, nil, nil, func() map[string]any { return c31State(u) })
 	// free run to the end: every closer closes, the consumer drains to end-of-stream
 	if !s.Join(30 * time.Second) {
 		s.Log(map[string]any{"ev": "stuck"})
